@@ -220,5 +220,13 @@ def run_for(pid):
     return out
 
 
+def run_for_id(fid):
+    """Replay one witness in a fresh interpreter (used by --replay)."""
+    env = dict(os.environ, PYTHONPATH=ROOT, PYTHONHASHSEED="0")
+    so = subprocess.run([sys.executable, "-m", "vf.witness", fid], stdout=subprocess.PIPE, stderr=subprocess.DEVNULL, env=env, cwd=ROOT, timeout=1800).stdout
+    line = [l for l in so.decode().splitlines() if l.startswith("{")]
+    return json.loads(line[-1]) if line else {"id": fid, "reproduced": False, "what": "witness produced no output"}
+
+
 if __name__ == "__main__":
     print(json.dumps(run_one(sys.argv[1])))
